@@ -112,6 +112,33 @@ static void run_case(CaseCtx& c)
         default: o["unknownOption"] = "1"; expect_usage = true; extremes.push_back("unknown-option"); break;
         }
     }
+    // whether the parser itself must refuse is judged from the FINAL option map (a later mutation may have overridden an
+    // earlier bad value): unknown option, non-numeric value of a numeric option, integer outside a oneof() list
+    {
+        auto is_num = [](const std::string& v) {
+            if (v.empty())
+                return false;
+            char* end = nullptr;
+            strtod(v.c_str(), &end);
+            return end && *end == 0;
+        };
+        static const std::map<std::string, std::vector<std::string>> oneof = {
+            {"extrapolation", {"0", "1", "2", "3"}}, {"multigridCycle", {"0", "1", "2"}}, {"FMG_cycle", {"0", "1", "2"}},
+            {"residualNormType", {"0", "1", "2"}}, {"stencilDistributionMethod", {"0", "1"}}, {"geometry", {"0", "1", "2", "3"}},
+            {"problem", {"0", "1", "2", "3"}}, {"alpha_coeff", {"0", "1", "2", "3"}}, {"beta_coeff", {"0", "1"}},
+            {"DirBC_Interior", {"0", "1"}}, {"FMG", {"0", "1"}}, {"write_grid_file", {"0", "1"}}, {"load_grid_file", {"0", "1"}},
+            {"cacheDensityProfileCoefficients", {"0", "1"}}, {"cacheDomainGeometry", {"0", "1"}}};
+        expect_usage = o.count("unknownOption") > 0;
+        for (auto& kv : o) {
+            if (kv.first == "file_grid_radii" || kv.first == "file_grid_angles" || kv.first == "unknownOption")
+                continue;
+            if (!is_num(kv.second))
+                expect_usage = true;
+            auto it = oneof.find(kv.first);
+            if (it != oneof.end() && std::find(it->second.begin(), it->second.end(), kv.second) == it->second.end())
+                expect_usage = true;
+        }
+    }
     std::sort(extremes.begin(), extremes.end());
     extremes.erase(std::unique(extremes.begin(), extremes.end()), extremes.end());
     std::string ext;
